@@ -105,7 +105,7 @@ func drawStructured(rt *rapid.T, fam string) (structCert, bool) {
 			if rapid.IntRange(0, 5).Draw(rt, "rndname") == 0 {
 				s = rapid.StringMatching(`[a-z0-9_*.-]{1,30}\.(com|org|co\.uk|invalid)`).Draw(rt, "name")
 			} else {
-				s = gen.DNSDict[rapid.IntRange(0, len(gen.DNSDict)-1).Draw(rt, "dns")]
+				s = dnsPool()[rapid.IntRange(0, len(dnsPool())-1).Draw(rt, "dns")]
 			}
 			gns = append(gns, gen.GNDNS([]byte(s)))
 			desc = append(desc, s)
@@ -120,7 +120,7 @@ func drawStructured(rt *rapid.T, fam string) (structCert, bool) {
 			v.SetCN([]byte(cn), 12)
 			desc = append(desc, "cn:"+cn)
 		case 2:
-			cn := gen.DNSDict[rapid.IntRange(0, len(gen.DNSDict)-1).Draw(rt, "cndict")]
+			cn := dnsPool()[rapid.IntRange(0, len(dnsPool())-1).Draw(rt, "cndict")]
 			v.SetCN([]byte(cn), 12)
 			desc = append(desc, "cn(other):"+cn)
 		default:
@@ -235,7 +235,7 @@ func drawStructured(rt *rapid.T, fam string) (structCert, bool) {
 			if rapid.IntRange(0, 2).Draw(rt, "isonion") > 0 {
 				s = onions[rapid.IntRange(0, len(onions)-1).Draw(rt, "onion")]
 			} else {
-				s = gen.DNSDict[rapid.IntRange(0, len(gen.DNSDict)-1).Draw(rt, "dns")]
+				s = dnsPool()[rapid.IntRange(0, len(dnsPool())-1).Draw(rt, "dns")]
 			}
 			gns = append(gns, gen.GNDNS([]byte(s)))
 			desc = append(desc, s)
@@ -447,4 +447,14 @@ func removedTLDs() []string {
 		}
 	})
 	return removedList
+}
+
+var (
+	dnsPoolOnce sync.Once
+	dnsPoolV    []string
+)
+
+func dnsPool() []string {
+	dnsPoolOnce.Do(func() { dnsPoolV = gen.DNSPool() })
+	return dnsPoolV
 }
